@@ -11,7 +11,7 @@ MP, MPS, MPO, GS, SYM, HQC, BASIS = Q.MP, Q.MPS, Q.MPO, "renormalizer/mps/gs.py"
 # callers of _update_mps (closed table; a new caller is an analysis error until classified)
 UPDATE_CALLERS = {
     ("renormalizer/mps/gs.py", "single_sweep"): "run",      # abstract run with versioned events (chain_rules.single_sweep_rule)
-    ("renormalizer/mps/mps.py", "Mps._evolve_tdvp_ps2"): "sweep",
+    ("renormalizer/mps/mps.py", "Mps._evolve_tdvp_ps2"): "run",      # abstract run with bookkeeping events (chain_rules.tdvp_bookkeeping_rule)
     ("renormalizer/mps/mp.py", "MatrixProduct.variational_compress"): "sweep",
     ("renormalizer/cv/zerot.py", None): "out of scope: correction-vector code builds its own operators, OFS unsupported there",
     ("renormalizer/vibration/vscf.py", None): "out of scope",
@@ -372,6 +372,8 @@ def run(chk):
     # ---- ofs-pair
     from .chain_rules import single_sweep_rule
     single_sweep_rule(chk, src, rule_ofs="ofs-pair")
+    from .chain_rules import tdvp_bookkeeping_rule
+    tdvp_bookkeeping_rule(chk, src, rule_ofs="ofs-pair", quals=("Mps._evolve_tdvp_ps2",))
     seen = 0
     for rel in sorted(src.modules):
         for fi in src.funcs_in(rel):
